@@ -97,7 +97,7 @@ def cfg_alphabet(maxops):
 
 def cfg_seqrule(two_keys):
     """C13 sequential: seq and cas in 0..3 and a large value, two values, gets with and without a sequence number, expiry;
-    histories of any length on one (thorough: two) targets."""
+    histories of any length on one target (targets are independent; two targets square the state count and add nothing)."""
     return mc_cfg(["w"], True, ["k1", "k2"] if two_keys else ["k1"], ["s0"], ["v1", "v2"], [0, 1, 2, 3, BIG], [0, 1, 2, 3, BIG],
                   ["ok"], False, ["w"], ["w"], 0, [1], True, True)
 
@@ -136,10 +136,10 @@ def stage1(prop, tier, v, cov):
         runs.append(("client keeping the first verified value must fail", "MC_GetPut", getput_cfg("first", True, 3), "ClientHighest"))
         runs.append(("client skipping verification must fail", "MC_GetPut", getput_cfg("noverify", True, 3), "ClientVerified"))
     else:
-        runs.append(("seq/cas/expiry rule, sequential", "MC_Bep44", cfg_seqrule(thorough), None))
+        runs.append(("seq/cas/expiry rule, sequential", "MC_Bep44", cfg_seqrule(False), None))
         runs.append(("2 putters + expiring getter, wrapper lock", "MC_Bep44", cfg_conc(True, 2, thorough), None))
         if thorough:
-            runs.append(("3 putters + expiring getter, wrapper lock", "MC_Bep44", cfg_conc(True, 3, False, initseqs=(1,)), None))
+            runs.append(("3 putters, expiry, wrapper lock", "MC_Bep44", cfg_conc(True, 3, False, getter=False), None))
         runs.append(("no lock: a put must lower the stored seq", "MC_Bep44",
                      cfg_conc(False, 2, False, invs="NoSeqDecrease", props=""), "NoSeqDecrease"))
         runs.append(("no lock: an expiry must delete a fresh put", "MC_Bep44",
